@@ -392,6 +392,18 @@ Definition classes (T : ntable) (o : op) (is_sub : bool) (ss : list sub) : list 
                                       match accepted_op (run_model T (s_env s)) with Some o' => op_eqb o o' | None => false end) ss in
   let alias_other := existsb (fun s => negb (String.eqb (s_role s) "canonical") &&
                                        match accepted_op (run_model T (s_env s)) with Some o' => negb (op_eqb o o') | None => false end) ss in
+  (* the same bytes as POST body and as socket payload, read as different operations *)
+  let text_diverges :=
+    existsb (fun s1 => existsb (fun s2 =>
+       String.eqb (s_label s1) (s_label s2) && negb (String.eqb (s_role s1) "canonical") &&
+       match s_env s1, s_env s2 with
+       | EHttp _, EWs _ _ _ =>
+           match accepted_op (run_model T (s_env s1)), accepted_op (run_model T (s_env s2)) with
+           | Some o1, Some o2 => negb (op_eqb o1 o2)
+           | _, _ => false
+           end
+       | _, _ => false
+       end) ss) ss in
   let http_refused := existsb (fun s => match s_env s with EHttp _ => true | _ => false end) refused in
   let ws_refused := existsb (fun s => match s_env s with EWs _ _ _ => true | _ => false end) refused in
   List.concat [
@@ -400,6 +412,7 @@ Definition classes (T : ntable) (o : op) (is_sub : bool) (ss : list sub) : list 
     (match o_vars o with Some (_ :: _) => ["with-variables"] | _ => [] end);
     (if is_empty (o_opname o) then [] else ["with-opname"]);
     (if alias_same then ["alias-same-op"] else []); (if alias_other then ["alias-other-op"] else []);
+    (if text_diverges then ["same-text-other-op"] else []);
     (if http_refused then ["refused-http"] else []); (if ws_refused then ["refused-ws"] else []);
     (if executed || http_refused || ws_refused then ["nontrivial"] else []) ].
 
